@@ -949,11 +949,11 @@ func (x *Exec) dispatch(st *Step, ev Ev) {
 			os[i] = qframe.Order{Column: o.Col.String(), Reverse: o.Rev, NullLast: o.NullLast}
 			oe = append(oe, Ev{"col": o.Col, "rev": b2i(o.Rev), "nulllast": b2i(o.NullLast)})
 		}
-		ev["a"] = Ev{"orders": oe}
+		ev["a"] = Ev{"orders": oe, "rid": bsOr(st.Rid)}
 		x.result(ev, qf.Sort(os...))
 	case "Distinct":
 		qf := x.frame(st.Recv)
-		ev["a"] = Ev{"cols": bsOrEmpty(st.Cols), "null": b2i(st.Null)}
+		ev["a"] = Ev{"cols": bsOrEmpty(st.Cols), "null": b2i(st.Null), "rid": bsOr(st.Rid)}
 		x.result(ev, qf.Distinct(groupby.Columns(strList(st.Cols)...), groupby.Null(st.Null)))
 	case "Select":
 		qf := x.frame(st.Recv)
@@ -1036,7 +1036,7 @@ func (x *Exec) dispatch(st *Step, ev Ev) {
 		g := qf.GroupBy(groupby.Columns(strList(st.Cols)...), groupby.Null(st.Null))
 		x.groupers = append(x.groupers, g)
 		x.gbirth = append(x.gbirth, grouperDigest(g))
-		ev["a"] = Ev{"cols": bsOrEmpty(st.Cols), "null": b2i(st.Null)}
+		ev["a"] = Ev{"cols": bsOrEmpty(st.Cols), "null": b2i(st.Null), "rid": bsOr(st.Rid)}
 		ev["gout"] = len(x.groupers) - 1
 		ev["gerr"] = b2i(g.Err != nil)
 		ev["gdig"] = x.gbirth[len(x.gbirth)-1]
